@@ -18,11 +18,24 @@ PROFILES: List[Tuple[str, Profile]] = [
 ]
 
 
+def deepen(ctx: Any, index: int, profile: Profile) -> Profile:
+    """Thorough tier only: one input in sixteen is a long history (60-150 events) over more accounts; one in sixty-four is
+    very long (300 events). The quick tier keeps the profile as it is. Decided from the case index, not from the rng, so
+    the histories of the other cases do not depend on the tier."""
+    if ctx.tier != "thorough":
+        return profile
+    if index % 64 == 7:
+        return Profile(**{**profile.__dict__, "min_events": 200, "max_events": 300, "n_exchanges": max(profile.n_exchanges, 3), "n_holders": 2})
+    if index % 16 == 3:
+        return Profile(**{**profile.__dict__, "min_events": 60, "max_events": 150, "n_exchanges": max(profile.n_exchanges, 3)})
+    return profile
+
+
 def matcher_cases(ctx: Any, index: int) -> List[Tuple[str, Dict[str, Any], List[Dict[int, str]]]]:
     """One generated input -> list of (family, history, schedules to run it under)."""
     rng = ctx.rng("case", index)
     pick = rng.random()
-    max_events_boost = 60 if ctx.tier == "thorough" and rng.random() < 0.1 else 0
+    max_events_boost = (rng.choice((60, 60, 150)) if rng.random() < 0.1 else 0) if ctx.tier == "thorough" else 0
     if pick < 0.55:
         name, profile = PROFILES[rng.randrange(len(PROFILES))]
         if max_events_boost:
